@@ -280,6 +280,9 @@ def check(ctx):
     for cfgname in ctx.configs(quick=('base',), thorough=('base', 'wire', 'nostd')):
         f = ctx.facts(cfgname)
         rep.cur_config = cfgname
+        from . import common as _common
+        _common.check_frame(f, rep, 'C11-R0')
+        _common.check_derives(f, rep, 'C11-R0')
         r1_guards(ctx, f, rep)
         r2_creation(ctx, f, rep)
         r3_no_effect_unless_applied(ctx, f, rep)
